@@ -224,27 +224,24 @@ func (s *SMSSender) Send(ctx context.Context, number, text string) error {
 	return nil
 }
 
-// Hasher is an ideal salted password hash: GenerateHash(p) = "$vh$" + salt8 + p with a fresh
-// salt; CompareHashAndPassword(h, q) succeeds iff h is such a value and its password part
-// equals q. The hash is opaque to the library (which only stores and passes it back); the
-// C17 provenance check treats the construction as a one-way atom.
+// Hasher is an ideal salted password hash (the pluggable authboss.Hasher of the world model):
+// "$vh$" + salt(8) + H(salt + password) with a fresh salt per call and H an ideal hash
+// (stubs.BcMake with its own prefix). The hash is opaque to the library, which only stores it
+// and hands it back.
 type Hasher struct {
 	Fault func(site string) bool
 	Calls int
 }
 
-const hashPrefix = "$vh$"
-const saltLen = 8
-
 // MakeHash builds the stored form of password p with the given 8-byte salt.
-func MakeHash(p, salt string) string { return hashPrefix + salt + p }
+func MakeHash(p, salt string) string { return "$vh$" + salt + verif.UFStr("ideal_hash", salt+p) }
 
 func (h *Hasher) GenerateHash(p string) (string, error) {
 	if h.Fault != nil && h.Fault("GenerateHash") {
 		return "", ErrInjected
 	}
 	h.Calls++
-	return MakeHash(p, verif.FreshString("salt", saltLen)), nil
+	return MakeHash(p, verif.FreshString("salt", 8)), nil
 }
 
 var errMismatch = &injected{"hashedPassword is not the hash of the given password"}
@@ -258,9 +255,8 @@ func (h *Hasher) CompareHashAndPassword(hash, p string) error {
 
 // HashMatches is the ground-truth predicate "p is the password stored as hash".
 func HashMatches(hash, p string) bool {
-	n := len(hashPrefix) + saltLen
-	if len(hash) < n || hash[:len(hashPrefix)] != hashPrefix {
+	if len(hash) != 4+8+20 || hash[:4] != "$vh$" {
 		return false
 	}
-	return hash[n:] == p
+	return hash[12:] == verif.UFStr("ideal_hash", hash[4:12]+p)
 }
